@@ -306,6 +306,13 @@ inductive WTrans (b : BState) : BState → Prop where
       WTrans b (finishCmd { b with g := { b.g with adm := { b.g.adm with used := b.g.adm.used + (w - wk.weight), kw := b.g.adm.kw.set id { wk with weight := w } }, stats := updateWeightStats { b.g.stats with keysUpdated := b.g.stats.keysUpdated + 1 } w wk.weight } } h .accepted)
   | updatePanic (id w h) : b.w = .update id w h → wuFree b .worker = true →
       WTrans b { b with w := .dead, g := { b.g with worker := .dead, queue := [] } }
+  /-- `is_space_available_for`: `max_weight - weight_used` is outside `i64` (the three `wu.space` positions of a put) -/
+  | space0Overflow (c) : b.w = .space0 c → wuFree b .worker = true → b.g.adm.spaceOverflow = true →
+      WTrans b { b with w := .dead, g := { b.g with worker := .dead, queue := [] } }
+  | evSpaceOverflow (c e s) : b.w = .evSpace c e s → wuFree b .worker = true → b.g.adm.spaceOverflow = true →
+      WTrans b { b with w := .dead, g := { b.g with worker := .dead, queue := [] } }
+  | emptyOverflow (c) : b.w = .emptySpace c → wuFree b .worker = true → b.g.adm.spaceOverflow = true →
+      WTrans b { b with w := .dead, g := { b.g with worker := .dead, queue := [] } }
   | delStoreNone (k h) : b.w = .delStore k h → storeWritable b k none = true → WTrans b (finishCmd b h (.rejected .keyDoesNotExist))
   | delStoreSome (k h e) : b.w = .delStore k h → b.g.store.get? k = some e → storeWritable b k none = true →
       WTrans b { b with g := { b.g with store := b.g.store.del k, stats := { b.g.stats with keysDeleted := b.g.stats.keysDeleted + 1 } }, w := .delKw e.id e.expiry h }
@@ -356,6 +363,9 @@ theorem workerAct_trans {b b' : BState} {o o' : Oracle} (h : workerAct b o = .ok
     · cases h
     · rename_i hfree
       simp only [Bool.not_eq_true, Bool.not_eq_false'] at hfree
+      split at h
+      · simp only [Except.ok.injEq, Prod.mk.injEq] at h; obtain ⟨rfl, rfl⟩ := h
+        exact .space0Overflow c hw hfree (by assumption)
       split at h
       · simp only [Except.ok.injEq, Prod.mk.injEq] at h; obtain ⟨rfl, rfl⟩ := h
         exact .space0Fits c hw hfree (by assumption)
@@ -409,14 +419,19 @@ theorem workerAct_trans {b b' : BState} {o o' : Oracle} (h : workerAct b o = .ok
     · cases h
     · rename_i hfree
       simp only [Bool.not_eq_true, Bool.not_eq_false'] at hfree
-      simp only [Except.ok.injEq, Prod.mk.injEq] at h; obtain ⟨rfl, rfl⟩ := h
-      exact .evSpace c e s hw hfree
+      split at h
+      all_goals simp only [Except.ok.injEq, Prod.mk.injEq] at h; obtain ⟨rfl, rfl⟩ := h
+      · exact .evSpaceOverflow c e s hw hfree (by assumption)
+      · exact .evSpace c e s hw hfree
   | emptySpace c =>
     simp only [workerAct, hw] at h
     split at h
     · cases h
     · rename_i hfree
       simp only [Bool.not_eq_true, Bool.not_eq_false'] at hfree
+      split at h
+      · simp only [Except.ok.injEq, Prod.mk.injEq] at h; obtain ⟨rfl, rfl⟩ := h
+        exact .emptyOverflow c hw hfree (by assumption)
       split at h
       all_goals simp only [Except.ok.injEq, Prod.mk.injEq] at h; obtain ⟨rfl, rfl⟩ := h
       · exact .emptyFits c hw hfree (by assumption)
